@@ -13,14 +13,14 @@ THOROUGH_S = 900
 TECHNIQUE = ('runtime monitoring: _tx_position/_tx_position_end/get_location of every model object compared with the token '
              'spans of an independent reference derivation of the same input (layout ground truth), structural span invariants')
 RULE = ('random grammars (C01 generator without suppression; Comment rule in 40%) x derived inputs with random whitespace, '
-        'CR/LF, tabs, comments between tokens, leading and trailing noise; each accepted input is loaded from a string and '
+        'CR/LF, CRLF line ends, tabs, comments between tokens (some containing U+2028, VT, NEL, FF, FS: line boundaries for str.splitlines but not newlines), leading and trailing noise; each accepted input is loaded from a string and '
         'from a file. For every object (paired with its reference node by parallel traversal): start = first matched '
         'character, end = right after the last one, slice non-empty, child inside parent, list siblings ordered and disjoint, '
         'get_location line/col by counting newlines, nchar = slice length, filename = absolute path or None. distinct = '
         '(grammar skeleton, input token kinds, load kind); non-trivial = model with >= 3 objects and the input contains a '
         'newline or a comment before some object')
 REQUIRED = {'objects_checked': 2000, 'models': 300, 'file_loads': 100, 'string_loads': 100, 'inputs_with_comments': 10,
-            'objects_after_newline': 200}
+            'objects_after_newline': 200, 'locations_checked': 2000, 'crlf_layouts': 100, 'unusual_separator_layouts': 20}
 
 
 def linecol(text, off):
@@ -75,6 +75,13 @@ def _one(ctx, i, rep=None):
                 continue
             s = r.choice(['', ' ', '\n\n', '\t \r\n']) + s + r.choice(['', ' ', '\n', ' \n\t'])
             from_file = (k % 2 == 1)
+            if r.random() < 0.3:
+                s = s.replace('\n', '\r\n')
+                ctx.count('crlf_layouts')
+            if r.random() < 0.3 and '// c' in s:
+                # characters that str.splitlines() treats as line boundaries but that are not newlines
+                s = s.replace('// c', '// \u2028\x0b\x85\x0c\x1c c')
+                ctx.count('unusual_separator_layouts')
             if from_file:
                 # files are read with universal newlines: offsets refer to the text as decoded
                 s = s.replace('\r\n', '\n').replace('\r', '\n')
@@ -110,61 +117,73 @@ def _one(ctx, i, rep=None):
             out = []
             pairs(refm, m, out)
             wit = {'grammar': text, 'input': s, 'from_file': from_file}
-            nl_obj = False
-            bad = None
-            spans = {}
-            for ro, to, parent, attr in out:
-                if isinstance(to, (str, int, float, bool)) or to is None:
-                    continue
-                ctx.count('objects_checked')
-                st, en = getattr(to, '_tx_position', None), getattr(to, '_tx_position_end', None)
-                spans[id(to)] = (st, en)
-                cls = type(to).__name__
-                if '\n' in s[:ro.start]:
-                    nl_obj = True
-                    ctx.count('objects_after_newline')
-                if (st, en) != (ro.start, ro.end):
-                    bad = '%s object: span (%r, %r) = %r, its text is (%d, %d) = %r' % (
-                        cls, st, en, s[st:en] if isinstance(st, int) and isinstance(en, int) else None, ro.start, ro.end, s[ro.start:ro.end])
-                    break
-                if not (0 <= st < en <= len(s)):
-                    bad = '%s object: empty or out-of-range span (%r, %r)' % (cls, st, en)
-                    break
-                if parent is not None and id(parent) in spans:
-                    ps, pe = spans[id(parent)]
-                    if not (ps <= st and en <= pe):
-                        bad = '%s object span (%d,%d) not inside its parent span (%d,%d)' % (cls, st, en, ps, pe)
-                        break
-                loc = get_location(to)
-                el, ec = linecol(s, ro.start)
-                exp = {'line': el, 'col': ec, 'nchar': ro.end - ro.start, 'filename': os.path.abspath(fname) if fname else None}
-                if loc != exp:
-                    bad = '%s object: get_location %r, expected %r' % (cls, loc, exp)
-                    break
-            if bad is None:
-                # list siblings ordered and disjoint
-                for ro, to, parent, attr in out:
-                    if isinstance(ro, RP.RObj):
-                        for k2, v in ro.attrs.items():
-                            tv = getattr(to, k2, None)
-                            if isinstance(tv, list):
-                                last = -1
-                                for x in tv:
-                                    if id(x) in spans:
-                                        a, b2 = spans[id(x)]
-                                        if a < last:
-                                            bad = 'objects in list %s.%s overlap or are out of order' % (type(to).__name__, k2)
-                                        last = b2
+            bad, nl_obj, nobj = evaluate(ctx, refm, m, s, fname, out)
             ctx.case((skel, P.token_kinds(s), from_file), len(out) >= 3 and nl_obj,
                      {'grammar': text, 'input': s, 'objects': len(out)} if ctx.evaluations < 2 else None)
             if bad:
-                ctx.violation(classify(g, s, refm, m, bad), bad, wit, rep)
+                ctx.violation(classify(ctx, g, s, refm, m, bad, fname), bad, wit, rep)
     finally:
         if tmp:
             shutil.rmtree(tmp, ignore_errors=True)
 
 
-def classify(g, s, refm, m, bad):
+def evaluate(ctx, refm, m, s, fname, out, count=True):
+    """compare every object of the textX model with its counterpart in the reference model: span, nesting, get_location,
+    order of list siblings. Returns (first problem or None, an object lies after a newline, objects)"""
+    from textx import get_location
+    nl_obj = False
+    bad = None
+    spans = {}
+    for ro, to, parent, attr in out:
+        if isinstance(to, (str, int, float, bool)) or to is None:
+            continue
+        if count:
+            ctx.count('objects_checked')
+        st, en = getattr(to, '_tx_position', None), getattr(to, '_tx_position_end', None)
+        spans[id(to)] = (st, en)
+        cls = type(to).__name__
+        if '\n' in s[:ro.start]:
+            nl_obj = True
+            if count:
+                ctx.count('objects_after_newline')
+        if (st, en) != (ro.start, ro.end):
+            bad = '%s object: span (%r, %r) = %r, its text is (%d, %d) = %r' % (
+                cls, st, en, s[st:en] if isinstance(st, int) and isinstance(en, int) else None, ro.start, ro.end, s[ro.start:ro.end])
+            break
+        if not (0 <= st < en <= len(s)):
+            bad = '%s object: empty or out-of-range span (%r, %r)' % (cls, st, en)
+            break
+        if parent is not None and id(parent) in spans:
+            ps, pe = spans[id(parent)]
+            if not (ps <= st and en <= pe):
+                bad = '%s object span (%d,%d) not inside its parent span (%d,%d)' % (cls, st, en, ps, pe)
+                break
+        loc = get_location(to)
+        el, ec = linecol(s, ro.start)
+        exp = {'line': el, 'col': ec, 'nchar': ro.end - ro.start, 'filename': os.path.abspath(fname) if fname else None}
+        if count:
+            ctx.count('locations_checked')
+        if loc != exp:
+            bad = '%s object: get_location %r, expected %r' % (cls, loc, exp)
+            break
+    if bad is None:
+        # list siblings ordered and disjoint
+        for ro, to, parent, attr in out:
+            if isinstance(ro, RP.RObj):
+                for k2, v in ro.attrs.items():
+                    tv = getattr(to, k2, None)
+                    if isinstance(tv, list):
+                        last = -1
+                        for x in tv:
+                            if id(x) in spans:
+                                a, b2 = spans[id(x)]
+                                if a < last:
+                                    bad = 'objects in list %s.%s overlap or are out of order' % (type(to).__name__, k2)
+                                last = b2
+    return bad, nl_obj, len(out)
+
+
+def classify(ctx, g, s, refm, m, bad, fname):
     """dangling separator (Arpeggio keeps the separator node when the next element fails): the end of the
     enclosing nodes then lies after that separator. Reproduce it in the reference and compare all spans."""
     try:
@@ -175,11 +194,13 @@ def classify(g, s, refm, m, bad):
         return None
     out = []
     pairs(refm2, m, out)
-    for ro, to, parent, attr in out:
-        if isinstance(to, (str, int, float, bool)) or to is None:
-            continue
-        if (getattr(to, '_tx_position', None), getattr(to, '_tx_position_end', None)) != (ro.start, ro.end):
-            return None
+    # explained by the finding only if EVERYTHING (spans, nesting, locations, sibling order) agrees with the reference
+    # that keeps the separator, and the plain reference's own spans differ from that one (a separator is involved)
+    bad2, _nl, _n = evaluate(ctx, refm2, m, s, fname, out, count=False)
+    if bad2 is not None:
+        return None
+    if RP.dump_spans(refm2) == RP.dump_spans(refm):
+        return None
     return 'dangling-separator'
 
 
